@@ -28,6 +28,9 @@ NVARS = 4
 
 # ----------------------------------------------------------------------------- implementation side
 
+RAISING_CLASSES = (LookupError, KeyError, TypeError, IndexError)   # tag 1 -> KeyError, 2 -> TypeError, 3 -> IndexError
+
+
 class _Boom(Exception):
     """private exception used to leave a `with` block by exception"""
 
@@ -60,6 +63,14 @@ def _exec_impl(sc):
                 def __bool__(self):
                     return False
             return Falsy()
+        if sc.get("raising"):
+            # a handler that answers by RAISING (KeyError / TypeError / LookupError ... carrying its
+            # tag): the request is still served by this handler, and by no other one
+            def raiser(request, _h=h):
+                e = RAISING_CLASSES[_h % len(RAISING_CLASSES)](f"tag{_h}")
+                e.verif_tag = _h
+                raise e
+            return raiser
         return lambda request: h
     handlers = {h: mk(h) for h in TAGS + (FALSY,)}
     prog = sc["prog"]
@@ -115,7 +126,12 @@ def _exec_impl(sc):
                 return "done" if types[op[1]].handle(fn) is fn else "notsame"
             return "done" if R.handle_by_default(types[op[1]], fn) is None else "notnone"
         if k == "run":
-            return f"h{types[op[1]]().run()}"
+            try:
+                return f"h{types[op[1]]().run()}"
+            except Exception as e:  # noqa: BLE001
+                if hasattr(e, "verif_tag"):       # the exception of the (raising) handler that served
+                    return f"h{e.verif_tag}"
+                raise
         raise AssertionError(op)
 
     def block(i, top=False):
@@ -597,6 +613,8 @@ def run(ctx):
         streams.append(("random", gen_random(rng, maxlen)))
     for _ in range(n_falsy):
         streams.append(("falsy-handlers", gen_random(rng, min(maxlen, 25), tags=TAGS + (FALSY,))))
+    for _ in range(n_falsy):
+        streams.append(("raising-handlers", dict(gen_random(rng, min(maxlen, 25)), raising=True)))
     scenarios = [sc for _, sc in streams]
 
     obs = run_batch(scenarios)
